@@ -716,13 +716,18 @@ LEVEL_TEXT = (
     "test is covered only under PosOk (positive-weight points not flagged); a decide'd counterexample shows the "
     "hypothesis is necessary. The model is tied to transitions.py by exhaustive enumeration of every rng path of the "
     "real classes (scripted generator) on random orbits, compared per start with the model's exact distribution "
-    "jointly with n_step, tree_depth and error flags; second layer with real system + leapfrog + built-in criteria."
+    "jointly with n_step, tree_depth and error flags; second layer with real system + leapfrog + built-in criteria. "
+    "Statistics clause (Props/C01Stats.lean): final_in_visited, visited_distinct, nStep_le, nStep_full, "
+    "nStep_treeOf_full, build_ok_iff_valid, acceptStat_unit/_error/_mean (dynamic), stepsTaken_le/_eq_iff, "
+    "metropolisStats_spec, metropolis_accept_is_move_prob (Metropolis: reported accept_stat = probability that the "
+    "proposal is returned): the reported n_step counts each successful integrator step exactly once and accept_stat "
+    "is the mean acceptance probability over exactly the states visited."
 )
 LEVEL_NOTE = (
     "Trusted: Lean kernel, axioms {propext, Classical.choice, Quot.sound}; the orbit abstraction (a step i→i+1 "
     "succeeds iff i+1→i does: C02; volume preservation: C03); float exp/log vs exact weights (rtol 1e-9); harness. "
     "Statistics (n_step, accept_stat) are checked on the real code against the integrator calls actually made "
-    "(direct oracle) and against the model's deterministic visited-leaf computation; no separate theorem beyond the "
-    "model definitions. Continuous-state measure theory is not formalised."
+    "(direct oracle) and against the model's visited-leaf / steps-taken computation (correspondence); the theorems of "
+    "Props/C01Stats.lean relate that computation to the transition kernel. Continuous-state measure theory is not formalised."
 )
 TECHNIQUE = "Lean 4 proof (structural induction on trajectory trees, finite-sum re-indexing) + exhaustive rng-path enumeration of the real transitions vs the model"
